@@ -36,8 +36,8 @@ import (
 type checker struct {
 	a     vh.Args
 	res   *vh.Result
-	specs map[string]string // observed draw specification per protocol/position (evidence)
-	lines []string          // model driver input
+	specs map[string]string  // observed draw specification per protocol/position (evidence)
+	lines []string           // model driver input
 	want  []func(out string) // continuation per model line
 	only  string
 }
